@@ -914,6 +914,8 @@ def check_case(case, mres):
             count("mt-vs-st:gray lazy stack with batch_size= / names= / device= / out= in a thread pool")
         elif hard_gray:
             count("mt-vs-st:gray")
+        elif kindname == "sub" and o["checked"]:
+            count("mt-vs-st:gray _SubTensorDict with checked=True")     # the single-threaded form of a view always validates
         elif inplace and has_out and not o["leaf_nont"] and any(e[0] == "T" for _, e in I.walk(case["self"])):
             count("mt-vs-st:gray inplace + out= + non-tensor entries")    # the single-threaded form copies out's non-tensor data into self
         else:
@@ -1031,20 +1033,21 @@ def pattern_flags(case):
 
 
 def mt_patterns(case):
+    """decidable patterns of the recorded thread-pool / single-thread discrepancies"""
     o = case["opts"]
     f = {}
-    nd = REF.nested_dispatch_nodes(case)
-    if case["out"] is not None and not o["inplace"] and nd > 0:
-        f["out_with_nested"] = True
-    if REF.below_root_missing(case):
-        f["default_below_root"] = True
-    if REF.all_none_subtree(case):
-        f["fe_none_all_none_subtree"] = True
-    if o["names"] != "absent" and nd > 0:
-        f["names_with_nested"] = True
-    if case["out"] is not None and not o["inplace"] and o["checked"] and o["dev"] != "absent" and o["dev"] != case["out"][2][1]:
-        f["checked_dev_out"] = True
+    if case["out"] is not None and not o["inplace"] and not o["leaf_nont"] and \
+            any(e[0] == "T" and not (o["con"] and len(p) == 1) for p, e in I.walk(case["self"]) if p):
+        f["out_nontensor"] = True
     return f
+
+
+def blind_nont(t):
+    if t is None or isinstance(t, str) or t[0] == "L":
+        return t
+    if t[0] == "T":
+        return ["T", "-", "-", t[3]]
+    return ["N", t[1], t[2], [[k, blind_nont(c)] for k, c in t[3]]]
 
 
 def blind_full(t):
@@ -1072,6 +1075,8 @@ def mt_diff_kind(mt, st, case=None):
             same = len(ms) == len(got) and all(cmp_expected(REF.abstract_expected(m), g) is None for m, g in zip(ms, got))
         if same:
             return "extra-empty-nodes"          # nothing was written: self / out is returned where the other form returns None
+    if strip_ident(blind_nont(mr)) == strip_ident(blind_nont(sr)):
+        return "non-tensor-data"
     if strip_ident(erase_nested_names(mr)) == strip_ident(erase_nested_names(sr)):
         return "names-only"
 
